@@ -43,7 +43,9 @@ ObsGate(s) ==
   << s.g, s.c, s.p,
      IF s.g = "cmd" THEN s.name ELSE IF s.g = "rpc" THEN s.k ELSE IF s.g = "out" THEN s.val ELSE "",
      IF s.g = "rpc" THEN s.to ELSE 99 >>
-ObsParked(o) == { ObsGate(o.parked[k]) : k \in 1..Len(o.parked) }
+\* (a parked MPC message of a slow link has no counterpart: the specification runs the MPC protocol as one internal
+\*  step once every party's task is running; releasing such a message is a stuttering step)
+ObsParked(o) == { ObsGate(o.parked[k]) : k \in { j \in 1..Len(o.parked) : o.parked[j].g # "msg" } }
 
 StrayStr(sq) == [k \in 1..Len(sq) |-> sq[k].cmd \o ":" \o sq[k].res]
 NoPanicEntries(sq) == SelectSeq(sq, LAMBDA x : x.cmd # "PANIC")
@@ -78,6 +80,7 @@ StepAction(s) ==
     [] s.g = "ctask" -> DoCtask(act(s))
     [] s.g = "mtask" -> DoMtask(act(s))
     [] s.g = "out" -> outq[act(s)] # << >> /\ Head(outq[act(s)]).val = s.val /\ DoOut(act(s))
+    [] s.g = "msg" -> UNCHANGED vars
 
 Consume ==
   /\ l <= NRec /\ l' = l + 1
